@@ -293,7 +293,10 @@ func checkCase(c Case) (Outcome, error) {
 	m["other"] = &table{cols: []column{{name: "id"}, {name: "a"}, {name: "b"}}}
 	m["events"] = &table{cols: []column{{name: "id"}, {name: "a"}, {name: "b"}}} // a name that starts with letters of the rebuild prefix new_
 	m["Users"] = &table{cols: []column{{name: "id"}, {name: "a"}, {name: "b"}}}  // a mixed-case name (the rebuild goes through new_Users)
-	sb.WriteFile("m/100_init.sql", m.schemaSQL())
+	// a table no step touches, with a trigger: files older than the lint window are replayed too, and a trigger body holds
+	// semicolons of its own
+	m["audit_log"] = &table{cols: []column{{name: "id"}, {name: "a"}}}
+	sb.WriteFile("m/100_init.sql", m.schemaSQL()+"CREATE TRIGGER trg_audit_log AFTER INSERT ON audit_log BEGIN SELECT 1; SELECT 2; END;\n")
 	rehash := func() error {
 		if r := sb.Run("migrate", "hash", "--dir", "file://m"); r.Code != 0 {
 			return fmt.Errorf("harness: %v", r)
